@@ -34,6 +34,8 @@ func runC15(c *Ctx, r *Report) {
 	c15r6(c, r)
 	c15r7(c, r)
 	c15r9(c, r)
+	c15r10(c, r)
+	c15r11(c, r)
 	c15r8(c, r)
 }
 
